@@ -375,6 +375,14 @@ theorem crash_images_of_a_put (F : Bytes) (b : Block) (k j : Nat) :
   refine ⟨m, by rw [← sectionBytes_length]; exact hm, ?_⟩
   unfold ldWriteEvs
   rw [crashImage_chunks, List.append_assoc, he]
+/-- (11) … and the same for the final **header write** (two writes: 16 bytes at offset 11, 24 bytes at 27) over
+    the still-zero slot: for EVERY cut the slot holds the first `m ≤ 40` bytes of the header and zeros after
+    them — exactly the images (6), (7) and (8) quantify over (`m ≥ 32`, `24 ≤ m ≤ 32`, `m ≤ 24`). -/
+theorem crash_images_of_the_header_write (H : V2Header) (rest : Bytes) (k j : Nat) :
+    ∃ m, m ≤ 40 ∧ crashImage (pragma ++ zeros 40 ++ rest) (headerEvs H) k j
+      = pragma ++ (H.bytes.take m ++ zeros (40 - m)) ++ rest :=
+  crashImage_header H rest k j
+
 /-- Non-vacuity of (6)/(7): a concrete session, header cut at 37 and at 25 bytes. -/
 example : LayoutOK 0 0 60 ∧ (32 ≤ 37 ∧ 37 ≤ 40) ∧ (24 ≤ 25 ∧ 25 ≤ 32 ∧ 60 % 256 ^ (25 - 24) ≠ 0) := by
   refine ⟨⟨by decide, by decide, by decide⟩, by decide, by decide⟩
